@@ -269,13 +269,21 @@ func genC11(t *rapid.T) c11Case {
 	}
 	twin := rapid.IntRange(0, 3).Draw(t, "twin_user") == 0
 	c.Cfg.Users = genUsers(twin)
+	// one case in five has an entry whose name differs from alice's by a blank only, with rules of its own:
+	// names are compared as they are written
+	reqUsers := []string{"alice", "alice", "alice", "alice", "alice", "alice", "bob", "mallory"}
+	if rapid.IntRange(0, 4).Draw(t, "lookalike_name") == 0 {
+		padded := rapid.SampledFrom([]string{"alice ", " alice", "alice\t"}).Draw(t, "padded_name")
+		c.Cfg.Users = append(c.Cfg.Users, cfggen.User{Name: padded, Scopes: []string{cfggen.ScopeA, cfggen.ScopeB}, Commands: genRules(t, 4), Services: genServices(t, 2)})
+		reqUsers = append(reqUsers, padded, padded, "alice")
+	}
 	if rapid.IntRange(0, 3).Draw(t, "reload") == 0 {
 		c2 := cfggen.Config{Secrets: c.Cfg.Secrets, Users: genUsers(twin)}
 		c.Cfg2 = &c2
 	}
 	nr := rapid.IntRange(1, 6).Draw(t, "nreqs")
 	for i := 0; i < nr; i++ {
-		c.Reqs = append(c.Reqs, genC11Request(t, []string{"alice", "alice", "alice", "alice", "alice", "alice", "bob", "mallory"}))
+		c.Reqs = append(c.Reqs, genC11Request(t, reqUsers))
 	}
 	// the same question again: later (after the reload, if there is one) and/or from the other scope
 	if twin || c.Cfg2 != nil {
